@@ -4,6 +4,7 @@ import (
 	"bytes"
 	"encoding/hex"
 	"fmt"
+	"sync"
 
 	cid "github.com/ipfs/go-cid"
 	"github.com/ipld/go-ipld-prime/codec/cbor"
@@ -39,7 +40,7 @@ func (c05) ID() string { return "C05" }
 func (c05) Plan(tier string) fw.Plan {
 	p := fw.Plan{
 		Batches: 16, Cases: 1500, TimeoutSec: 900, Level: "exploration",
-		Rule: "one case = one history of 30 operations (Store, ComputeLink, Load, LoadRaw, LoadPlusRaw, Fill) on one LinkSystem over one storage (memstore through SetReadStorage/SetWriteStorage, or cidlink.Memory openers), link prototypes drawn from CID v0/v1 × codecs {dag-cbor, dag-json, cbor, json, raw, 0x70→dag-cbor in a private registry} × every hasher of go-multihash's core registry × digest length {−1, full, truncated, 1} × identity; each value materialised at each step through a different implementation (basicnode build program, harness-owned node, bindnode-wrapped Go struct with renamed/tuple representation) and insertion order. Oracle: reference CID over reference bytes (independent canonical DAG-CBOR encoder; raw bytes; the codec's own direct Encode for the others), write-once map model of the storage. dag-json/json values carry no floats here (C04 decides float round trips). Non-trivial: history stored ≥2 distinct blocks and loaded at least one; distinct by hash of the history's (value, prototype, op) sequence.",
+		Rule:        "one case = one history of 30 operations (Store, ComputeLink, Load, LoadRaw, LoadPlusRaw, Fill) on one LinkSystem over one storage (memstore through SetReadStorage/SetWriteStorage, or cidlink.Memory openers), link prototypes drawn from CID v0/v1 × codecs {dag-cbor, dag-json, cbor, json, raw, 0x70→dag-cbor in a private registry} × every hasher of go-multihash's core registry × digest length {−1, full, truncated, 1} × identity; each value materialised at each step through a different implementation (basicnode build program, harness-owned node, bindnode-wrapped Go struct with renamed/tuple representation) and insertion order. Oracle: reference CID over reference bytes (independent canonical DAG-CBOR encoder; raw bytes; the codec's own direct Encode for the others), write-once map model of the storage. dag-json/json values carry no floats here (C04 decides float round trips). Non-trivial: history stored ≥2 distinct blocks and loaded at least one; distinct by hash of the history's (value, prototype, op) sequence.",
 		Assumptions: []string{"stdlib crypto digests and lib/ref/link CID construction are the link oracle", "for cbor/json/dag-json the expected block bytes come from the codec's own direct Encode call (outside the link system)"},
 		MinEvents:   []string{"stores", "computes", "loads", "loadraws", "loadplusraws", "fills", "typed_nodes_stored", "storage_content_checks"},
 	}
@@ -222,6 +223,7 @@ func (c05) RunCase(c *fw.Ctx, rng *fw.RNG, batch, i int) {
 	}
 	var blocks []storedBlock
 	firstLink := map[string]string{} // (proto,value) -> link binary seen first
+	var computed []c05Computed
 	modelStore := map[string][]byte{} // multihash -> block bytes (write-once)
 	hh := uint64(0)
 	loadsDone := 0
@@ -327,6 +329,9 @@ func (c05) RunCase(c *fw.Ctx, rng *fw.RNG, batch, i int) {
 				c.Deviate("C05:link-not-a-function", fmt.Sprintf("same value and prototype gave link %x earlier in this history and %x now", prev, lnk.Binary()))
 			}
 			firstLink[key] = lnk.Binary()
+			if pv.typed == "" && len(computed) < 12 {
+				computed = append(computed, c05Computed{lp, vv, string(wantLink), protoS})
+			}
 			if op == 0 {
 				// truncated digests collide: the storage is write-once, so a link that
 				// already maps to other bytes (same multihash) is outside the model
@@ -412,6 +417,44 @@ func (c05) RunCase(c *fw.Ctx, rng *fw.RNG, batch, i int) {
 			}
 		}
 	}
+	// "any interleaving ... on one link system": one history in four ends with the links of this history
+	// computed again from four goroutines at once on the same LinkSystem (ComputeLink touches no storage;
+	// the nodes are harness-owned and read-only). A hasher or encoder shared between calls shows here.
+	if len(computed) >= 2 && rng.Chance(1, 4) {
+		c.Count("concurrent_bursts", 1)
+		var mu sync.Mutex
+		var bad []string
+		var wg sync.WaitGroup
+		for g := 0; g < 4; g++ {
+			wg.Add(1)
+			go func(g int) {
+				defer wg.Done()
+				defer func() {
+					if r := recover(); r != nil {
+						mu.Lock()
+						bad = append(bad, fmt.Sprintf("panic: %v", r))
+						mu.Unlock()
+					}
+				}()
+				for round := 0; round < 6; round++ {
+					for k := range computed {
+						cp := computed[(k+g)%len(computed)]
+						lnk, err := lsys.ComputeLink(cp.lp, fnode.New(cp.v))
+						if err != nil || lnk.Binary() != cp.want {
+							mu.Lock()
+							bad = append(bad, fmt.Sprintf("ComputeLink(%s) = %x, err %v; reference link %x", cp.proto, linkBin(lnk), err, cp.want))
+							mu.Unlock()
+						}
+					}
+				}
+			}(g)
+		}
+		wg.Wait()
+		c.Count("concurrent_computes", int64(4*6*len(computed)))
+		if len(bad) > 0 {
+			c.Deviate("C05:wrong-link:concurrent-ComputeLink", fmt.Sprintf("%d of %d concurrent ComputeLink calls on one LinkSystem disagreed with the reference, e.g. %s", len(bad), 4*6*len(computed), bad[0]))
+		}
+	}
 	c.Seen(hh, len(blocks) >= 2 && loadsDone > 0)
 	if c.WantSample() && len(hist) > 0 {
 		h := hist
@@ -420,4 +463,18 @@ func (c05) RunCase(c *fw.Ctx, rng *fw.RNG, batch, i int) {
 		}
 		c.Sample(map[string]any{"storage_cidlink_memory": useCidMem, "private_registry": private, "first_steps": h})
 	}
+}
+
+type c05Computed struct {
+	lp    cidlink.LinkPrototype
+	v     model.Val
+	want  string
+	proto string
+}
+
+func linkBin(l datamodel.Link) string {
+	if l == nil {
+		return ""
+	}
+	return l.Binary()
 }
